@@ -65,6 +65,24 @@ func (w *CliWorld) execRelay(op *Op, cli *turn.Client) bool {
 				peer = &net.UDPAddr{IP: v4, Port: peer.Port}
 			}
 		}
+		busy := false
+		w.mu.Lock()
+		for _, c := range w.calls {
+			if c.Kind == "writeto" && !c.Done && c.Op != nil && hasFlag(c.Op, "reuseaddr") {
+				busy = true // (a call that still runs may use the object: the application waits for its own calls)
+			}
+		}
+		w.mu.Unlock()
+		if hasFlag(op, "reuseaddr") && !busy && !w.K.Free {
+			// the application keeps one address object and overwrites it before every call (what a
+			// loop over destinations does): WriteTo may use it during the call, not keep it
+			if w.sharedAddr == nil {
+				w.sharedAddr = &net.UDPAddr{}
+			}
+			w.sharedAddr.IP = append(w.sharedAddr.IP[:0], peer.IP...)
+			w.sharedAddr.Port = peer.Port
+			peer = w.sharedAddr
+		}
 		w.call(op, func(c *callRec) {
 			c.Data = payload
 			c.N, c.Err = relay.WriteTo(payload, peer)
